@@ -128,6 +128,22 @@ def main():
                     for mm in re.finditer(r"\.account_flags\s*(\|=|&=|=)[^=]", fb):
                         writes.append((name, True, "RAW"))
     writes = sorted(set(writes))
+    # whole-field writes of the migration link and of the position array (C16: a transfer happens once)
+    mig, arr = [], []
+    for base in ["instructions", "state"]:
+        for root, _, files in sorted(os.walk(os.path.join(SRC, base))):
+            for f in sorted(files):
+                if not f.endswith(".rs"):
+                    continue
+                s2 = sc(open(os.path.join(root, f)).read())
+                for name, fb in all_fns(s2):
+                    for mm in re.finditer(r"\.migrated_to\s*=(?!=)\s*([^;]*);", fb):
+                        mig.append((name, "default" not in mm.group(1)))
+                    for mm in re.finditer(r"\.lending_account\s*=(?!=)\s*([^;]*);", fb):
+                        arr.append((name, "zeroed" in mm.group(1)))
+    mig = sorted(set(mig))
+    arr = sorted(set(arr))
+    mfns = sorted({w[0] for w in mig} | {w[0] for w in arr})
     FL = {"ACCOUNT_DISABLED": "disabled", "ACCOUNT_IN_FLASHLOAN": "inFlashloan", "ACCOUNT_IN_RECEIVERSHIP": "inReceivership",
           "ACCOUNT_IN_DELEVERAGE": "inDeleverage", "ACCOUNT_FROZEN": "frozen", "RAW": "rawCopy"}
     fns = sorted({w[0] for w in writes})
@@ -157,6 +173,11 @@ def main():
          "inductive WFn", "  " + " ".join("| fn_%s" % n for n in fns), "  deriving DecidableEq, Repr",
          "/-- every (function, sets?, flag) account-flag write in the program -/",
          "def flagWrites : List (WFn × Bool × Flag) := [%s]" % ", ".join("(.fn_%s, %s, .%s)" % (n, "true" if s else "false", FL.get(f, "rawCopy")) for n, s, f in writes),
+         "inductive MFn", "  " + " ".join("| fn_%s" % n for n in mfns), "  deriving DecidableEq, Repr",
+         "/-- every assignment to `migrated_to` in the program: (function, assigns something other than the default key) -/",
+         "def migratedToWrites : List (MFn × Bool) := [%s]" % ", ".join("(.fn_%s, %s)" % (n, "true" if b else "false") for n, b in mig),
+         "/-- every whole-array assignment to an account's `lending_account`: (function, assigns the zeroed array) -/",
+         "def lendingArrayWrites : List (MFn × Bool) := [%s]" % ", ".join("(.fn_%s, %s)" % (n, "true" if b else "false") for n, b in arr),
          "", "end Mfi.Gen.TxL", ""]
     text = "\n".join(L)
     p = os.path.join(GEN, "TxLists.lean")
